@@ -213,6 +213,10 @@ class HierDriver(explore.Driver):
             if op[-1] == "refresh":
                 ds[-1].rejuvenate()
                 st.synced = True
+                # like a user looking at the data after every refresh: fill
+                # the per-child feature caches, so that a later refresh has
+                # something stale to forget
+                self._touch(st)
         except Exception as e:
             st.err = f"{op}: {type(e).__name__}: {e}"
             return ("exc", type(e).__name__)
@@ -220,6 +224,23 @@ class HierDriver(explore.Driver):
             return tuple(len(d) for d in ds) + tuple(
                 tuple(d.filter.all.tolist()) for d in ds)
         return None
+
+    def _touch(self, st):
+        for d in st.ds[1:]:
+            if len(d) == 0:
+                continue
+            try:
+                np.asarray(d[FEATS[0]][:])
+                np.asarray(d["time"][:])
+                d["image"][0]
+                d["mask"][len(d) - 1]
+                d["contour"][0]
+                d["trace"]["fl1_raw"][0]
+                d[FEATS[1]].mean()
+                if st.tmp is not None:
+                    np.asarray(d[TMP][:])
+            except Exception:
+                pass      # reported by check()
 
     def check(self, st):
         out = []
